@@ -10,6 +10,7 @@ var All = []*ev.Property{
 	C03,
 	C04,
 	C05,
+	C06,
 	C08,
 	C11,
 	C14,
